@@ -1,5 +1,7 @@
 import AiocoapModel.Basic.Bytes
 import AiocoapModel.Observe.Client
+import AiocoapModel.Observe.Joint
+import AiocoapModel.Driver.MsgLayer
 /-!
 Line protocol for C07.
 
@@ -10,6 +12,11 @@ Line protocol for C07.
    → one group per event, separated by blanks: `<deliveries,comma|.>/<E|->` where `E` says the
      runner has ended (the pipe has no interest left).  Deliveries:
      `resp:code:obs:body` `rexc:k` `cb:code:obs:body` `eb:<NotObservable|ObservationCancelled|Tk>` `stop`
+`C07 J <reset> <observe 0|1> <message-layer line>`          message layer + runner of request 0
+   the message-layer line is that of `Driver/MsgLayer.lean`; additional events `OC@t`
+   (`requests[0].observation.cancel()`); `C@t:0` is `requests[0].response.cancel()`.
+   → the groups of the message-layer protocol; the deliveries of request 0 are added to their
+     group as `D<nn>:<delivery>` (`nn` = position among the deliveries of the group)
 -/
 namespace Aiocoap
 open Aiocoap.Observe
@@ -64,6 +71,71 @@ def runGroups (cfg : Cfg) (s : ObsState) : List TEvent → Option (List String)
     if r.1 = .unmodelled then none else
     (runGroups cfg r.1 es).map (groupStr r.2 r.1 :: ·)
 
+-- joint ---------------------------------------------------------------------------------------
+
+inductive ScriptEv
+  | ev (e : JEv)
+  | advance
+
+def parseJoint (s : String) : Option (Nat × ScriptEv) :=
+  match s.splitOn "@" with
+  | ["OC", t] => do pure (← t.toNat?, .ev (.app (← t.toNat?) .obsCancel))
+  | ["C", rest] =>
+    match rest.splitOn ":" with
+    | [t, "0"] => do pure (← t.toNat?, .ev (.app (← t.toNat?) .respCancel))
+    | _ => none                 -- cancelling other requests is not part of these scripts
+  | _ =>
+    match MsgLayer.parseEvent s with
+    | some (t, some e) => some (t, .ev (.net { time := t, ev := e }))
+    | some (t, none) => some (t, .advance)
+    | none => none
+
+/-- fire the timers due before `bound`, earliest first, through the joint step -/
+def jointAdvance (cfg : Cfg) (fuel : Nat) (j : JState) (bound : Nat) :
+    JState × List MsgLayer.Out × List Delivery :=
+  match fuel with
+  | 0 => (j, [], [])
+  | fuel + 1 =>
+    match MsgLayer.earliestBefore j.ms bound with
+    | none => (j, [], [])
+    | some (t, tm) =>
+      let a := jointStep cfg 0 j (.net { time := t, ev := tm.toEv })
+      let b := jointAdvance cfg fuel a.1 bound
+      (b.1, a.2.1 ++ b.2.1, a.2.2 ++ b.2.2)
+
+def pad2 (n : Nat) : String := (if n < 10 then "0" else "") ++ toString n
+
+def jointGroupStr (os : List MsgLayer.Out) (ds : List Delivery) : String :=
+  let dl := ds.zipIdx.map (fun (d, i) => "D" ++ pad2 i ++ ":" ++ deliveryStr d)
+  ";".intercalate (os.map MsgLayer.outStr ++ dl)
+
+/-- as `MsgLayer.runScript`; `unm` reports that the runner left the model -/
+def jointScript (cfg : Cfg) (j : JState) (curO : List MsgLayer.Out) (curD : List Delivery) :
+    List (Nat × ScriptEv) → List String × Bool × Bool × JState
+  | [] => ([jointGroupStr curO curD], false, j.st = .unmodelled, j)
+  | (t, ev) :: rest =>
+    let (j1, o1, d1) := jointAdvance cfg 100000 j t
+    let tie := MsgLayer.tiesAt j1.ms t > 0
+    let (j2, o2, d2) := match ev with
+      | .ev e => jointStep cfg 0 j1 e
+      | .advance => ({ j1 with ms := { j1.ms with now := t } }, [], [])
+    let (gs, tie', unm, j3) := jointScript cfg j2 o2 d2 rest
+    (jointGroupStr (curO ++ o1) (curD ++ d1) :: gs, tie || tie', unm || j2.st = .unmodelled, j3)
+
+def handleJoint (reset observe : String) (args : List String) : String :=
+  match reset.toNat?, parseBool observe, args with
+  | some reset, some observe, el :: ead :: mid :: tok :: draws :: evs =>
+    match el.toNat?, ead.toNat?, mid.toNat?, tok.toNat?, MsgLayer.parseDraws draws, evs.mapM parseJoint with
+    | some el, some ead, some mid, some tok, some draws, some evs =>
+      let ms0 := MsgLayer.init { exchangeLifetime := el, emptyAckDelay := ead } mid tok
+        (fun i => draws.getD i 0)
+      let (gs, tie, unm, jf) := jointScript { reset, observe } { ms := ms0, st := .awaitingFirst } [] [] evs
+      if unm then "out-of-model" else
+      (if jf.ms.drawIdx > draws.length then "STARVED " else "") ++ (if tie then "TIE " else "") ++
+        "|".intercalate gs
+    | _, _, _, _, _, _ => "bad-op"
+  | _, _, _ => "bad-op"
+
 end Observe
 
 def handleC07 (args : List String) : String :=
@@ -80,6 +152,7 @@ def handleC07 (args : List String) : String :=
       | some gs => if gs.isEmpty then "-" else " ".intercalate gs
       | none => "out-of-model"
     | _, _, _ => "bad-op"
+  | "J" :: reset :: observe :: rest => handleJoint reset observe rest
   | _ => "bad-op"
 
 end Aiocoap
